@@ -138,7 +138,7 @@ theorem idcStarO_step (hk : SubsetOrder kordf) (hord : PermOrder ordf) (hG : G.W
                   -- K1: no re-associated outcome is named like the exchanged condition
                   have hK1 : ∀ o ∈ no.keys, o.name ≠ c.name := by
                     intro o ho hname
-                    exact rule2_name_free hord hG hdl hbl hEok hEkey hcg no.keys c hr2 o ho (hnokeys o ho).1
+                    exact rule2_name_free hord hG hdl hbl hEok hEkey hcg no.keys c _ hr2 o ho (hnokeys o ho).1
                       (hnckeys c hcmem).1 (hnevnsi' o (hnokeys o ho).1) (hnevnsi' c (hnckeys c hcmem).1) hname
                   obtain ⟨hno'nd, hno'ent⟩ := exchangeOutcomes_spec cf no c val no' hx
                   have hval : val.name = c.name := by
